@@ -1,9 +1,13 @@
 """C03 (protocol-level): see DESIGN.md section 6/C03 and 12."""
 import k3check
+import k5check
 
 
 def run(tier):
-    return k3check.run("C03", tier)
+    # exclusive access must also survive FAILED calls: a call that fails after it made a new lock array current without advancing
+    # the resize counter lets operations parked on the superseded array run next to holders of the new one (K5 fault scenarios,
+    # findings classified for C03 only)
+    return k3check.run("C03", tier, phases=[k5check.k5_phase_for("C03")])
 
 
 def replay(path):
